@@ -519,6 +519,17 @@ class Ctx:
             print('VIOLATION property=%s replay=%s no-failing-input-found' % (self.prop, path), flush=True)
             rc = 1
         cov = dict(self.coverage)
+        tb = list(self.trusted_base)
+        if getattr(self, 'translated', None):
+            tb.append('translator/calls.py + rustsrc.cfg_filter/all_calls (complete call lists of the modelled functions, cfg filtering for linux/x86_64); '
+                      'the literal lists in coq/<component>/Calls.v were taken from the source when the models were written')
+        if 'nested_instruction_sweep' in cov or 'nested2_instruction_sweep' in cov:
+            tb.append('harness/src/bin/p_nested.rs, p_nested2.rs: x86-64 trap-flag single-stepping, SIGTRAP handler running the nested operation (fork per boundary in p_nested2); '
+                      'outcome sets of the extracted SC model over step boundaries as the oracle')
+        if 'instruction_delivery_sweep' in cov:
+            tb.append('harness/src/bin/p_nested_iter.rs: trap-flag single-stepping + fork per boundary, sigqueue of the real signal inside the child, the shared self-pipe '
+                      'socket restored by the parent (FIONREAD / drain / refill); the oracle is the property text evaluated in the child')
+        self.trusted_base = tb
         cov.update({
             'obligations': max(self.obligations, 1),
             'discharged': max(self.discharged, 1) if rc == 0 else self.discharged,
